@@ -414,12 +414,14 @@ func runC02(p *core.Prog, r *core.Report) {
 
 	// ------------------------------------------------------------------ R7
 	r.Guard("C02.R7", "selectors", "combiner classification", func() { checkSelectors(p, r) })
+	r.Guard("C02.R8", "Merge/key-set", "every key of the partial is merged", func() { checkMergeKeySet(p, r) })
 
 	r.MinInstances("C02.R1", 22*4)
 	r.MinInstances("C02.R2", 20)
 	r.MinInstances("C02.R3", 4)
 	r.MinInstances("C02.R4", 4)
 	r.MinInstances("C02.R7", 20)
+	r.MinInstances("C02.R8", 19)
 }
 
 func shortFn(fn *ssa.Function) string {
@@ -1183,4 +1185,137 @@ func checkSaveLoadSymmetry(p *core.Prog, r *core.Report, rule string) {
 			r.Check(usesOwn, rule, pr.typ+"."+shortFn(fn)+"/marshaller", "snapshots are written and read with the store's own marshaller", "marshaller not taken from the store", p.Pos(fn.Pos()))
 		}
 	}
+}
+
+// checkMergeKeySet (C02.R8): in every loop of Merge over the partial's keys, an iteration ends with the key written
+// into the full store (setKV / setNewKV on that key) or with an error; the only way to leave a key untouched is the
+// found-branch of a lookup of that same key in the full store (first-wins: it is already there).  A key skipped for
+// any other reason (a zero sum, an empty value) exists after sequential execution but not after squashing.
+func checkMergeKeySet(p *core.Prog, r *core.Report) {
+	fn := p.Func(pkgStore, "baseStore.Merge")
+	kvF := p.Field(pkgStore, "baseStore", "kv")
+	setKV, setNew := p.FuncObj(pkgStore, "baseStore.setKV"), p.FuncObj(pkgStore, "baseStore.setNewKV")
+	partial := fn.Params[1]
+	loops := core.Loops(fn)
+	count := map[string]int{}
+	core.Instrs(fn, func(in ssa.Instruction) {
+		rg, ok := in.(*ssa.Range)
+		if !ok {
+			return
+		}
+		f, base := core.LoadedField(rg.X)
+		if f != kvF || !derivesFromParam(base, partial) {
+			return
+		}
+		var next *ssa.Next
+		for _, ref := range *rg.Referrers() {
+			if n, ok := ref.(*ssa.Next); ok {
+				next = n
+			}
+		}
+		if next == nil {
+			core.Undecide("Merge: range without Next")
+		}
+		var key, okv ssa.Value
+		for _, ref := range *next.Referrers() {
+			if ex, ok := ref.(*ssa.Extract); ok {
+				switch ex.Index {
+				case 0:
+					okv = ex
+				case 1:
+					key = ex
+				}
+			}
+		}
+		var loop *core.Loop
+		for _, l := range loops {
+			if l.Header == next.Block() {
+				loop = l
+			}
+		}
+		if loop == nil || okv == nil {
+			core.Undecide("Merge: loop of a range over the partial's keys not found")
+		}
+		ifi, isIf := next.Block().Instrs[len(next.Block().Instrs)-1].(*ssa.If)
+		if !isIf || ifi.Cond != okv {
+			core.Undecide("Merge: unexpected loop header shape")
+		}
+		body := next.Block().Succs[0]
+		labels := p.CaseLabels(rg.Pos())
+		base2 := "Merge/" + strings.Join(labels, "/")
+		count[base2]++
+		construct := fmt.Sprintf("%s/keys#%d", base2, count[base2])
+		if key == nil {
+			r.Fail("C02.R8", construct, "every key of the partial is written into the full store", "the loop does not use the key", p.Pos(rg.Pos()))
+			return
+		}
+		// found-edges of lookups of the same key in the full store
+		var foundEdges []core.Edge
+		for b := range loop.Body {
+			bi, ok := b.Instrs[len(b.Instrs)-1].(*ssa.If)
+			if !ok {
+				continue
+			}
+			c, neg := core.StripNot(bi.Cond)
+			ex, ok := c.(*ssa.Extract)
+			if !ok || ex.Index != 1 {
+				continue
+			}
+			lk, ok := ex.Tuple.(*ssa.Lookup)
+			if !ok || core.SkipConv(lk.Index) != key {
+				continue
+			}
+			if f, base := core.LoadedField(lk.X); f != kvF || !derivesFromParam(base, fn.Params[0]) {
+				continue
+			}
+			idx := 0
+			if neg {
+				idx = 1
+			}
+			foundEdges = append(foundEdges, core.Edge{From: b, Idx: idx})
+		}
+		isWrite := func(x ssa.Instruction) bool {
+			if _, ok := x.(*ssa.Return); ok {
+				return true
+			}
+			c := core.CalleeOf(x)
+			if c != setKV && c != setNew {
+				return false
+			}
+			args := x.(ssa.CallInstruction).Common().Args
+			return len(args) >= 2 && core.SkipConv(args[1]) == key
+		}
+		if isWrite(body.Instrs[0]) {
+			r.Pass("C02.R8", construct, "every key of the partial is written into the full store on every path of its iteration (or the merge fails); a key is left alone only when a lookup found it already present", p.Pos(rg.Pos()))
+			return
+		}
+		q := core.PathQuery{Fn: fn, CutInstr: isWrite, CutEdge: func(e core.Edge) bool { return containsEdge(foundEdges, e) }}
+		hit, reach := q.CanReach(body.Instrs[0], func(x ssa.Instruction) bool { return x == next.Block().Instrs[0] })
+		_ = hit
+		r.Check(!reach, "C02.R8", construct, "every key of the partial is written into the full store on every path of its iteration (or the merge fails); a key is left alone only when a lookup found it already present", "an iteration can end without writing its key although the key was not found in the full store", p.Pos(rg.Pos()))
+	})
+}
+
+// derivesFromParam: v is the parameter itself or an (embedded) field path loaded from it.
+func derivesFromParam(v ssa.Value, prm *ssa.Parameter) bool {
+	for i := 0; i < 4 && v != nil; i++ {
+		if v == ssa.Value(prm) {
+			return true
+		}
+		switch x := v.(type) {
+		case *ssa.UnOp:
+			if fa, ok := x.X.(*ssa.FieldAddr); ok {
+				v = fa.X
+				continue
+			}
+		case *ssa.FieldAddr:
+			v = x.X
+			continue
+		case *ssa.Field:
+			v = x.X
+			continue
+		}
+		return false
+	}
+	return false
 }
